@@ -804,11 +804,6 @@ def avoids_nontensor(ref, op):
         paths += [P(k) for k in op["keys"]]
     elif name == "split":
         paths += [P(k) for ks in op["sets"] for k in ks]
-    elif name == "flatten" and op["inplace"]:
-        # in-place flattening renames leaf after leaf: when a flattened name clobbers a root entry (D24b region) a later
-        # rename can run through a non-tensor leaf that has just been moved there
-        if nts and any(len(p) > 1 and op["sep"].join(p) in ref for p, _ in r_view(ref, True, True, "n")):
-            return False
     elif name == "unflatten":
         for k, v in ref.items():
             if op["sep"] in k:
@@ -841,14 +836,13 @@ def gen_op(rng, ref, ctr):
     for _ in range(50):
         op = gen_op1(rng, ref, ctr)
         if TENSOR_ONLY[0]:
-            # lazy stack: values are python dicts / tensors shaped for the stack (no dense TensorDict operands);
-            # filter_empty_ (hence split_keys) raises KeyError on any lazy stack holding an empty node (finding L3): not drawn
+            # lazy stack: values are python dicts / tensors shaped for the stack (no dense TensorDict operands)
             if "as_td" in op:
                 op["as_td"] = False
-            if op["op"] in ("split", "filter_empty"):
+            if op["op"] == "split" and op["inplace"]:
                 continue
-            # lazy update / unflatten_keys / in-place flatten_keys go through _lazy.py's own code paths, on which this
-            # run showed further divergences that were not triaged (notes/C04-selftest.md): not drawn for this subject
+            # in-place select / exclude / flatten_keys / split_keys on a lazy stack are not drawn (a raise half-way through
+            # the members leaves them with different key sets: not determined by the nested dict)
             # unflatten_keys: the result depends on the order in which the root keys are visited, and a lazy stack
             # does not iterate its keys in insertion order: not determined by the nested dict, not drawn
             if (op["op"] in ("flatten", "select", "exclude") and op["inplace"]) or op["op"] == "unflatten":
@@ -1039,7 +1033,7 @@ def theorem_scope(op):
     if any(p is None for p in ps):
         return "outside:invalid-key"
     name = op["op"]
-    if name in PROVED_KINDS or name == "flatten":
+    if name in PROVED_KINDS or name in ("flatten", "unflatten"):
         if name == "rename" and op["safe"] and len(ps[0]) < len(ps[1]) and ps[1][:len(ps[0])] == ps[0]:
             return "outside:safe-rename-into-own-subtree"
         return "proved:C04_refine_step"
@@ -1374,8 +1368,8 @@ def main(R):
         "order of keys is compared with the model only; the oracle compares key sets / pair sets / sortedness",
         "model correspondence: TensorDict subject only; lazy stacks (homogeneous, tensor leaves, restricted operation set) "
         "and tensorclass-held tensordicts are checked by the oracle only",
-        "lazy stacks: update / unflatten_keys / in-place select, exclude, flatten_keys / split_keys / filter_empty_ are not "
-        "drawn (further divergences of _lazy.py seen while building were not triaged, see notes/C04-selftest.md)",
+        "lazy stacks: unflatten_keys (its result depends on the key iteration order, which is not insertion order for a "
+        "lazy stack) and in-place select / exclude / flatten_keys / split_keys are not drawn",
     ]
     R.trusted = ["harness/c04.py r_* functions: the plain nested-dict replay (oracle)",
                  "harness/cext.py: g++ rebuild of tensordict/csrc from the working tree, loaded as tensordict._C"]
